@@ -28,7 +28,10 @@
 //   cli [ARG...] : the run goes through CommandLineTestRunner with argv {"runner", ARG...} (bare `cli` = `-p`;
 //             the registry is NOT put into separate-process mode by the harness).  ARGs: `-p` (required, anywhere)
 //             and any of -c -v -vv -ojunit -oteamcity -r1 -b -s<seed> -ri -gg -nt -xgZZZ -xnZZZ, which do not
-//             change which tests run.  The runner creates its own Console/JUnit/TeamCity output (recording
+//             change which tests run, and the repeat / shuffle options in every spelling: `-r` (bare: twice), `-r2`, `-r3`,
+//             `-r N`, bare `-s`, `-s N` (N = 1, 2, 3 as an argument of its own, only directly after a bare -r / -s).
+//             None of them takes a `-p` standing after it as its value.  When the run is repeated, every repetition
+//             after the first is announced by `round K` (K = 2, 3, ...); the scripted answers of the stubbed tests start again in every repetition.  The runner creates its own Console/JUnit/TeamCity output (recording
 //             subclasses); PlatformSpecificFPuts appends to a file shared by parent and children, FOpen/FClose
 //             are stubbed (JUnit "files" go to the same capture).
 // observations after `> run`, per test in registry order:
@@ -98,6 +101,7 @@ int g_marker_fd = -1;
 int g_console_fd = -1;               // cli mode: everything "printed to stdout" by parent and children
 bool g_cli = false;
 std::vector<std::string> g_cli_args;
+int g_rounds = 0;                    // repetitions of the run started so far (cli: -r)
 int g_rec_instances = 0;             // the first recording output created for a run is the one that records
 long g_rec_started = 0, g_rec_failures = 0;
 bool g_nproc0 = false;               // the case process can no longer fork (RLIMIT_NPROC 0, unprivileged)
@@ -331,6 +335,18 @@ public:
         g_sigconts = 0;
         vh::emit("started %d", g_cur);
     }
+    void printTestsStarted() CPPUTEST_OVERRIDE {             // once per repetition (`TestResult::testsStarted`)
+        Base::printTestsStarted();
+        if (g_in_child || !primary_) return;
+        if (++g_rounds < 2) return;
+        reap_all();
+        for (size_t k = 0; k < g_tests.size(); k++) {          // every repetition replays the same scenario
+            TestSpec& s = g_tests[k];
+            s.next = 0; s.starved = false; s.injected = 0; s.conts = 0; s.inRunner = false;
+            s.ticks = 0; s.elapsedMs = 0; s.realForkFailed = false; s.haveFinal = false; s.finalStatus = 0;
+        }
+        vh::emit("round %d", g_rounds);
+    }
     void printCurrentTestEnded(const TestResult& res) CPPUTEST_OVERRIDE {
         Base::printCurrentTestEnded(res);
         if (g_in_child || !primary_) return;
@@ -387,7 +403,7 @@ protected:
 
 bool valid_cli_arg(const std::string& a) {
     static const char* const fixed[] = { "-p", "-c", "-v", "-vv", "-ojunit", "-oteamcity", "-r1", "-b", "-ri", "-gg", "-nt",
-                                         "-xgZZZ", "-xnZZZ" };
+                                         "-xgZZZ", "-xnZZZ", "-r", "-r2", "-r3", "-s", "1", "2", "3" };
     for (size_t i = 0; i < sizeof fixed / sizeof fixed[0]; i++) if (a == fixed[i]) return true;
     if (a.size() >= 3 && a.size() <= 7 && a[0] == '-' && a[1] == 's' && a[2] >= '1' && a[2] <= '9') {
         for (size_t i = 3; i < a.size(); i++) if (a[i] < '0' || a[i] > '9') return false;
@@ -444,7 +460,7 @@ void run_registry() {
     void (*savedFlush)(void) = PlatformSpecificFlush;
     PlatformSpecificFile (*savedFOpen)(const char*, const char*) = PlatformSpecificFOpen;
     void (*savedFClose)(PlatformSpecificFile) = PlatformSpecificFClose;
-    g_rec_instances = 0; g_rec_started = 0; g_rec_failures = 0;
+    g_rec_instances = 0; g_rec_started = 0; g_rec_failures = 0; g_rounds = 0;
     if (g_cli) {
         PlatformSpecificFOpen = seam_fopen;
         PlatformSpecificFClose = seam_fclose;
@@ -639,7 +655,11 @@ void run_case(const vh::Case& c) {
         }
         else if (w[0] == "cli" && w.size() <= 11 && !g_tests.empty() && !g_cli) {
             bool okArgs = true, hasP = w.size() == 1;
-            for (size_t k = 1; k < w.size(); k++) { okArgs = okArgs && valid_cli_arg(w[k]); hasP = hasP || w[k] == "-p"; }
+            for (size_t k = 1; k < w.size(); k++) {
+                okArgs = okArgs && valid_cli_arg(w[k]); hasP = hasP || w[k] == "-p";
+                // a count / seed as an argument of its own: only directly after a bare -r / -s
+                if (w[k].size() == 1 && w[k][0] >= '1' && w[k][0] <= '3') okArgs = okArgs && k >= 2 && (w[k - 1] == "-r" || w[k - 1] == "-s");
+            }
             if (okArgs && hasP) {
                 g_cli = true;
                 g_cli_args.assign(w.begin() + 1, w.end());
